@@ -141,7 +141,7 @@ def describe(op):
         if p["mode"] == "P":
             raw = b"" if p["src"][0] == "-" else bytes.fromhex(p["src"][0])
             return ("t := strings.TrimSpace(%r); strconv.ParseInt(t, 10, 8|16|32|64); strconv.ParseUint(t, 10, 8|16|32|64); new(big.Int).SetString(t, 10); "
-                    "SetString(t[2:], 16) after a 0x prefix   // observation: p <hex of t> <ParseInt x4> <ParseUint x4> <SetString10> <0x?> <SetString16>; model = Gozod.ParseInt.*" % raw)
+                    "SetString(t[2:], 16) after a 0x prefix   // observation: p <hex of t> n<hex of ToLower(t), ASCII t only> <ParseInt x4> <ParseUint x4> <SetString10> <0x?> <SetString16>; model = Gozod.ParseInt.*" % raw)
         if p["mode"] == "F":
             return "strconv.FormatInt / FormatUint / (*big.Int).String of %s   // observation: f <hex FormatInt|-> <hex FormatUint|-> <hex big.String>; model = Gozod.ParseInt.formatInt" % p["src"][0]
         x = _go_src(p); t = p["tgt"]
